@@ -1,5 +1,6 @@
 import PygVerif.Generated
 import PygVerif.Model.Cache
+import PygVerif.Model.Site
 /-!
 # C10 — The directory cache is transparent and never older than its lifetime
 -/
@@ -145,6 +146,34 @@ theorem cache_protocol_free (render₁ render₂ : L → List Nat) (s : St D L) 
 
 /-- the shipped lifetime, as extracted from conf/pygopherd.conf -/
 theorem shipped_lifetime : Generated.cacheTime = 180 := by decide
+
+/-! ### the cache machine over whole file trees (`Model/Site`)
+
+The theorems above are generic in what a "directory" and a "listing" are.  Here the directory
+state is the whole file tree below the root and the listing is what the site model computes for
+a selector (directory walk, link files, `.cap`, sidecars, gophermap population): a mutation is
+*any* replacement of the tree. -/
+
+/-- **Never older than the lifetime, on real trees.**  For every configuration, selector,
+    lifetime and history of tree mutations, clock ticks and listing requests starting from any
+    tree: a listing the client receives is `siteEntries` of the file tree as it really was at some
+    moment less than a lifetime ago, or as it is now. -/
+theorem site_listing_staleness_bound (c : SiteCfg) (sel : Str) (T : Nat) (R0 : Node) (ops : List (Op Node))
+    (o : Option (List Entry)) (s' : St Node (Option (List Entry))) :
+    let listingOf : Node → Option (List Entry) := fun R => siteEntries c (statAt R) sel
+    let s := ops.foldl (fun s op => (step listingOf T s op).1) (init R0 : St Node (Option (List Entry)))
+    step listingOf T s .list = (s', some o) →
+    ∃ t R, (t, R) ∈ s.trail ∧ o = siteEntries c (statAt R) sel ∧ t ≤ s.now ∧ (t = s.now ∨ s.now < t + 1000 * T) := by
+  intro listingOf s hs
+  exact staleness_bound listingOf T s (inv_reachable listingOf T R0 ops) s' o hs
+
+/-- with lifetime 0 every listing is `siteEntries` of the tree as it is now -/
+theorem site_listing_current_at_lifetime_zero (c : SiteCfg) (sel : Str) (R0 : Node) (ops : List (Op Node)) :
+    let listingOf : Node → Option (List Entry) := fun R => siteEntries c (statAt R) sel
+    let s := ops.foldl (fun s op => (step listingOf 0 s op).1) (init R0 : St Node (Option (List Entry)))
+    (step listingOf 0 s .list).2 = some (siteEntries c (statAt s.dir) sel) := by
+  intro listingOf s
+  exact lifetime_zero_current listingOf s (inv_reachable listingOf 0 R0 ops)
 
 /-! non-vacuity: write at 0.5 s, hit at 179.9 s (lifetime 180 s), miss at 180.0 s -/
 example :
